@@ -36,4 +36,6 @@ def obligations(tier, seed=0):
         obs.append((FT + 'bit_prims', dict(fn='python_bitcount', bits=bits)))
     for bits in (1, 2, 7, 8, 9, 16, 17, 40, 100):
         obs.append((FT + 'bit_prims', dict(fn='python_trailing', bits=bits)))
+    for bits in (4, 7, 10, 13, 16):
+        obs.append((FT + 'sqrtrem_loops', dict(bits=bits)))
     return obs
